@@ -18,6 +18,16 @@
 // Oracle: the recorded subsets are all in 0..n-1; one per sub-iteration k0..K; within every full iteration (sub-iterations
 // m*n+1..(m+1)*n) every subset exactly once; the partial first iteration (k0 not at an iteration start) uses no subset twice;
 // no crash, no ASan report.
+//
+// RE-USED OBJECTS (histories): ONE OSMAPOSLReconstruction object is driven through 2 (thorough: also 3) consecutive runs; between the
+// runs the setters set_num_subsets / set_num_subiterations / set_start_subiteration_num / set_start_subset_num /
+// set_randomise_subset_order are called (variant min=0: all of them, min=1: only those whose value changes) followed by set_up().
+// Non-final runs end after one sub-iteration, at the end of the iteration they started in, or one sub-iteration into the next one;
+// the next run starts at every position 1..n+1 of an iteration and at the sub-iteration after the last one of the previous run.
+// rand() answers: every permutation of every draw of the non-final runs and of the first draw of the final run (other draws of the
+// final run: identity).  Oracle per run: the one above, plus: the schedule of a run of the re-used object equals the schedule of a
+// FRESHLY built object with the same settings that is given the same rand() answers (when the re-used object legitimately keeps a
+// left-over permutation of 0..n-1 for a partial first iteration, the schedules are compared from the first full iteration on).
 #include "vmc.h"
 #include "stir_small.h"
 #include "stir/OSMAPOSL/OSMAPOSLReconstruction.h"
@@ -41,6 +51,8 @@ struct Shared
   int cls[64];              // answer class actually given at each consumed choice point
   int srand_calls, time_calls;
   char current_case[512];
+  char current_key[200];    // histories: crash key of the run in progress
+  long long fresh_executions, fresh_rand_calls, compared_runs, kept_leftover_runs, reused_runs, reused_runs_n_changed, reused_runs_in_seed_region;
   // results accumulated by the child
   long long executions, rand_calls, edge_answers, order_hash_count, duplicates;
   long long viol_count; char viol_key[8][200]; char viol_case[8][512]; char viol_msg[8][600];
@@ -61,12 +73,22 @@ static int g_n = 1;           // num_subsets of the execution in progress
 static int g_mask = 15, g_bg = 0, g_edge_budget = 1 << 30, g_slice = -1;
 static bool g_perm_only = false, g_direct = false;
 
+// histories (re-used objects): g_hist set; g_base = number of rand() calls made before the run in progress; the first g_free_draws
+// permutation draws of the run in progress enumerate all their permutations (n-i regular classes at call i), later draws answer class 0
+static bool g_hist = false;
+static int g_base = 0, g_free_draws = 0;
+// fresh-object comparison run in progress: answers are read from g_fresh_ans (further calls: class 0), the choice tree is not touched
+static bool g_fresh = false;
+static std::vector<int> g_fresh_ans;
+static int g_fresh_pos = 0;
+
 static bool is_free(int j) { return (g_mask >> std::min(j / g_n, 30)) & 1; }
 static int first_free_point() { for (int d = 0; d < 8; ++d) if ((g_mask >> d) & 1) return d * g_n; return -1; }
 // number of answers allowed at choice point j, given the answers (indices) so far
 static int nclasses_at(int j, const int* seq)
 {
   if (g_direct) return 1;
+  if (g_hist) return (j - g_base) / g_n < g_free_draws ? g_n - (j - g_base) % g_n : 1;
   const int i = j % g_n;
   const int regular = g_n - i; // index values 0..n-i-1 ; class `regular` is the RAND_MAX edge
   if (!is_free(j)) return 1;
@@ -83,6 +105,7 @@ static int nclasses_at(int j, const int* seq)
 static int class_at(int j, int idx)
 {
   if (g_direct) return idx;
+  if (g_hist) return (j - g_base) / g_n < g_free_draws ? idx : 0;
   const int i = j % g_n;
   if (!is_free(j)) return g_bg ? g_n - i - 1 : 0;
   if (g_slice >= 0 && j == first_free_point()) return g_slice;
@@ -94,12 +117,21 @@ static int SHcls(int q) { return SH->cls[q]; }
 extern "C" int rand(void) noexcept
 {
   if (!SH) return 0;
+  if (g_fresh)
+    {
+      const int pos = g_fresh_pos++;
+      const int c = pos < (int)g_fresh_ans.size() ? g_fresh_ans[pos] : 0;
+      const int regular = g_n - pos % g_n;
+      SH->fresh_rand_calls++;
+      if (c >= regular) return RAND_MAX;
+      return (int)(((double)c + 0.5) / regular * (double)RAND_MAX);
+    }
   const int j = SH->consumed;
   int idx = (j < SH->seq_len) ? SH->seq[j] : 0;
   if (j < 64) { SH->nclasses_seen[j] = nclasses_at(j, SH->seq); if (j >= SH->seq_len) SH->seq[j] = 0; }
   SH->consumed = j + 1;
   SH->rand_calls++;
-  const int i = j % g_n, regular = g_n - i;
+  const int i = (j - g_base) % g_n, regular = g_n - i; // g_base is 0 except in histories
   const int c = class_at(j, idx);
   if (j < 64) SH->cls[j] = c;
   if (c >= regular) { SH->edge_answers++; return RAND_MAX; }
@@ -136,10 +168,19 @@ public:
   }
 };
 
-struct Case { int n = 1, ss = 0, k0 = 1, rnd = 0; };
+struct Run { int n = 1, ss = 0, k0 = 1, rnd = 0, K = 1; }; // K = num_subiterations
+// a single run of a fresh object (runs empty: n, ss, k0, rnd; as before), or a history of runs of ONE object (n, ss, k0, rnd = those of the last run)
+struct Case { int n = 1, ss = 0, k0 = 1, rnd = 0; std::vector<Run> runs; int minset = 0; };
+static std::string run_str(const Run& u) { return vmc::str(u.n) + "." + vmc::str(u.ss) + "." + vmc::str(u.k0) + "." + vmc::str(u.rnd) + "." + vmc::str(u.K); }
 // replay string: the answer CLASSES given to the successive rand() calls (further calls: class 0)
 static std::string case_str(const Case& c, const std::vector<int>& classes)
 {
+  if (!c.runs.empty())
+    { // hist=n.ss.k0.rnd.K/n.ss.k0.rnd.K;min=0|1 : runs of one object, setters between the runs (min=1: only those whose value changes)
+      std::string h;
+      for (size_t r = 0; r < c.runs.size(); ++r) h += (r ? "/" : "") + run_str(c.runs[r]);
+      return "hist=" + h + ";min=" + vmc::str(c.minset) + ";cls=" + vmc::join(classes);
+    }
   return "n=" + vmc::str(c.n) + ";ss=" + vmc::str(c.ss) + ";k0=" + vmc::str(c.k0) + ";rnd=" + vmc::str(c.rnd) + ";cls=" + vmc::join(classes);
 }
 static std::string crash_key(const Case& c)
@@ -155,6 +196,43 @@ static void add_violation(const std::string& key, const std::string& kase, const
   snprintf(SH->viol_key[k], sizeof SH->viol_key[k], "%s", key.c_str());
   snprintf(SH->viol_case[k], sizeof SH->viol_case[k], "%s", kase.c_str());
   snprintf(SH->viol_msg[k], sizeof SH->viol_msg[k], "%s", msg.c_str());
+}
+
+// the oracle of one run (sub-iterations k0..K with n subsets) on the recorded subset numbers; returns true when a violation was recorded
+static bool judge(const int n, const int k0, const int K, const std::vector<int>& calls, const bool threw, const std::string& what,
+                  const std::string& kt, const std::string& kase, const bool record_orders)
+{
+  auto show = [&] { return "subsets used from sub-iteration " + vmc::str(k0) + ": " + vmc::join(calls, ' '); };
+  for (int s : calls)
+    if (s < 0 || s >= n) { add_violation("clause=subset_in_range" + kt, kase, "subset number " + vmc::str(s) + " outside 0.." + vmc::str(n - 1) + "; " + show()); return true; }
+  if (threw) { add_violation("clause=no_error" + kt, kase, "the reconstruction loop failed: " + what.substr(0, 300)); return true; }
+  if ((int)calls.size() != K - k0 + 1)
+    { add_violation("clause=one_subset_per_subiteration" + kt, kase, vmc::str(calls.size()) + " gradient evaluations for sub-iterations " + vmc::str(k0) + ".." + vmc::str(K) + "; " + show()); return true; }
+  for (int block = (k0 - 1) / n; block * n + 1 <= K; ++block)
+    {
+      std::vector<int> seen(n, 0);
+      unsigned long long code = n; bool full = true;
+      for (int k = block * n + 1; k <= (block + 1) * n; ++k)
+        {
+          if (k < k0 || k > K) { full = false; continue; } // (k > K only in histories: a run may end in the middle of an iteration)
+          const int s = calls[k - k0];
+          ++seen[s]; code = code * 8 + (unsigned long long)s;
+        }
+      for (int s = 0; s < n; ++s)
+        {
+          if (seen[s] > 1)
+            { add_violation(std::string("clause=") + (full ? "each_subset_once_per_full_iteration" : "partial_iteration_no_repeat") + kt, kase, "subset " + vmc::str(s) + " used " + vmc::str(seen[s]) + " times in iteration " + vmc::str(block + 1) + "; " + show()); return true; }
+          if (full && seen[s] == 0)
+            { add_violation("clause=each_subset_once_per_full_iteration" + kt, kase, "subset " + vmc::str(s) + " not used in full iteration " + vmc::str(block + 1) + "; " + show()); return true; }
+        }
+      if (full && record_orders)
+        {
+          bool known = false;
+          for (int q = 0; q < SH->n_orders; ++q) if (SH->orders[q] == code) { known = true; break; }
+          if (!known && SH->n_orders < 1024) SH->orders[SH->n_orders++] = code;
+        }
+    }
+  return false;
 }
 
 // one execution of the real reconstruct loop with the choice sequence in SH->seq
@@ -202,37 +280,168 @@ static void execute(vmc::Ctx& ctx, const Case& c)
   SH->executions++;
   const std::string kase = case_str(c, std::vector<int>(SH->cls, SH->cls + std::min(SH->consumed, 64)));
   const std::string kt = ";randomise=" + vmc::str(c.rnd) + ";start_mid_iteration=" + vmc::str((int)((c.k0 - 1) % c.n != 0));
-  const std::vector<int>& calls = obj->calls;
-  auto show = [&] { return "subsets used from sub-iteration " + vmc::str(c.k0) + ": " + vmc::join(calls, ' '); };
-  for (int s : calls)
-    if (s < 0 || s >= c.n) { add_violation("clause=subset_in_range" + kt, kase, "subset number " + vmc::str(s) + " outside 0.." + vmc::str(c.n - 1) + "; " + show()); return; }
-  if (threw) { add_violation("clause=no_error" + kt, kase, "the reconstruction loop failed: " + what.substr(0, 300)); return; }
-  if ((int)calls.size() != K - c.k0 + 1)
-    { add_violation("clause=one_subset_per_subiteration" + kt, kase, vmc::str(calls.size()) + " gradient evaluations for sub-iterations " + vmc::str(c.k0) + ".." + vmc::str(K) + "; " + show()); return; }
-  for (int block = (c.k0 - 1) / c.n; block * c.n + 1 <= K; ++block)
+  judge(c.n, c.k0, K, obj->calls, threw, what, kt, kase, true);
+}
+
+// ------------------------------------------------------------------------------------------------ histories: one object, several runs
+struct Fixture
+{
+  shared_ptr<ProjDataInfo> pdi; shared_ptr<Target> image; shared_ptr<ExamData> data;
+  Fixture()
+  {
+    pdi = small::make_pdi(small::cyl_scanner(8, 1), 1, 0);
+    auto im = small::make_image(*pdi, 1, 3);
+    shared_ptr<ExamInfo> ex(new ExamInfo); ex->imaging_modality = ImagingModality::PT; im->set_exam_info(*ex);
+    image = im;
+    data = small::make_projdata(pdi);
+  }
+};
+static Fixture& fixture() { static Fixture f; return f; }
+
+// the setters for run `u`; prev != nullptr: only the setters whose value differs from the previous run's are called
+static void apply_settings(OSMAPOSLReconstruction<Target>& recon, const Run& u, const Run* prev)
+{
+  if (!prev || prev->n != u.n) recon.set_num_subsets(u.n);
+  if (!prev || prev->K != u.K) recon.set_num_subiterations(u.K);
+  if (!prev || prev->k0 != u.k0) recon.set_start_subiteration_num(u.k0);
+  if (!prev || prev->ss != u.ss) recon.set_start_subset_num(u.ss); // (checks its argument against the current num_subsets: after set_num_subsets)
+  if (!prev || prev->rnd != u.rnd) recon.set_randomise_subset_order(u.rnd != 0);
+}
+static bool set_up_and_run(OSMAPOSLReconstruction<Target>& recon, std::string& what)
+{
+  shared_ptr<Target> target(fixture().image->clone());
+  std::fill(target->begin_all(), target->end_all(), 1.F);
+  return small::throws([&] {
+    if (recon.set_up(target) != Succeeded::yes) throw std::runtime_error("set_up returned Succeeded::no");
+    if (recon.reconstruct(target) != Succeeded::yes) throw std::runtime_error("reconstruct returned Succeeded::no");
+  }, &what);
+}
+static void basic_settings(vmc::Ctx& ctx, OSMAPOSLReconstruction<Target>& recon, const shared_ptr<RecordingObjective>& obj)
+{
+  recon.set_objective_function_sptr(obj);
+  recon.set_save_interval(1); // (1 <= save_interval <= num_subiterations is demanded by set_up; nothing is written: output is disabled)
+  recon.set_disable_output(true);
+  recon.set_output_filename_prefix(ctx.tmpdir + "/c06b");
+}
+// a freshly built object with the settings of `u`, given the rand() answer classes `ans` (further calls: class 0)
+static void fresh_run(vmc::Ctx& ctx, const Run& u, const std::vector<int>& ans, std::vector<int>& sched, int& consumed, bool& threw, std::string& what)
+{
+  const int save_n = g_n;
+  g_n = u.n; g_fresh_ans = ans; g_fresh_pos = 0; g_fresh = true;
+  {
+    shared_ptr<RecordingObjective> obj(new RecordingObjective(fixture().image, fixture().data));
+    OSMAPOSLReconstruction<Target> recon;
+    basic_settings(ctx, recon, obj);
+    apply_settings(recon, u, nullptr);
+    threw = set_up_and_run(recon, what);
+    sched = obj->calls;
+  }
+  g_fresh = false; consumed = g_fresh_pos; g_n = save_n;
+  SH->fresh_executions++;
+}
+static std::string run_key(const Case& c, const size_t r)
+{
+  const Run& u = c.runs[r];
+  std::string k = "randomise=" + vmc::str(u.rnd) + ";start_mid_iteration=" + vmc::str((int)((u.k0 - 1) % u.n != 0));
+  if (r > 0) k += ";reused_object=1;num_subsets_changed=" + vmc::str((int)(u.n != c.runs[r - 1].n)); // run 0 is a run of a fresh object: same keys as the single runs
+  return k;
+}
+
+// one execution of a history (the choice sequence is in SH->seq): all runs on ONE reconstruction object
+static void execute_history(vmc::Ctx& ctx, const Case& c)
+{
+  SH->consumed = 0; g_base = 0; g_fresh = false;
+  // (in histories the prescribed answers ARE the answer classes: non-free choice points only ever hold 0)
+  const std::string planned = case_str(c, std::vector<int>(SH->seq, SH->seq + SH->seq_len));
+  snprintf(SH->current_case, sizeof SH->current_case, "%s", planned.c_str());
+  const size_t R = c.runs.size();
+  shared_ptr<RecordingObjective> obj(new RecordingObjective(fixture().image, fixture().data));
+  OSMAPOSLReconstruction<Target> recon;
+  basic_settings(ctx, recon, obj);
+  std::vector<std::vector<int>> sched(R), answers(R), leftover(R);
+  std::vector<int> leftover_len(R, 0);
+  std::string what;
+  bool bad = false;
+  size_t runs_done = 0;
+  for (size_t r = 0; r < R && !bad; ++r)
     {
-      std::vector<int> seen(c.n, 0);
-      unsigned long long code = c.n; bool full = true;
-      for (int k = block * c.n + 1; k <= (block + 1) * c.n; ++k)
+      const Run& u = c.runs[r];
+      const std::string ck = "part=b;" + run_key(c, r);
+      snprintf(SH->current_key, sizeof SH->current_key, "%s", ck.c_str());
+      ctx.current(ck, planned);
+      // canonical state read before the run: the permutation left over by the previous runs
+      leftover_len[r] = recon._current_subset_array.get_length();
+      for (int q = 0; q < leftover_len[r]; ++q) leftover[r].push_back(recon._current_subset_array[recon._current_subset_array.get_min_index() + q]);
+      std::string swhat;
+      const bool sthrew = small::throws([&] { apply_settings(recon, u, (r > 0 && c.minset) ? &c.runs[r - 1] : nullptr); }, &swhat);
+      g_n = u.n; g_base = SH->consumed; g_free_draws = (r + 1 == R) ? 1 : 99;
+      obj->calls.clear();
+      const bool threw = sthrew ? true : set_up_and_run(recon, what);
+      if (sthrew) what = "a setter failed: " + swhat;
+      sched[r] = obj->calls;
+      for (int j = g_base; j < std::min(SH->consumed, 64); ++j) answers[r].push_back(SH->cls[j]);
+      const std::string kase = case_str(c, std::vector<int>(SH->cls, SH->cls + std::min(SH->consumed, 64)));
+      bad = judge(u.n, u.k0, u.K, sched[r], threw, what, ";" + run_key(c, r), kase, false);
+      ++runs_done;
+      if (r > 0)
         {
-          if (k < c.k0) { full = false; continue; }
-          const int s = calls[k - c.k0];
-          ++seen[s]; code = code * 8 + (unsigned long long)s;
-        }
-      for (int s = 0; s < c.n; ++s)
-        {
-          if (seen[s] > 1)
-            { add_violation(std::string("clause=") + (full ? "each_subset_once_per_full_iteration" : "partial_iteration_no_repeat") + kt, kase, "subset " + vmc::str(s) + " used " + vmc::str(seen[s]) + " times in iteration " + vmc::str(block + 1) + "; " + show()); return; }
-          if (full && seen[s] == 0)
-            { add_violation("clause=each_subset_once_per_full_iteration" + kt, kase, "subset " + vmc::str(s) + " not used in full iteration " + vmc::str(block + 1) + "; " + show()); return; }
-        }
-      if (full)
-        {
-          bool known = false;
-          for (int q = 0; q < SH->n_orders; ++q) if (SH->orders[q] == code) { known = true; break; }
-          if (!known && SH->n_orders < 1024) SH->orders[SH->n_orders++] = code;
+          SH->reused_runs++;
+          if (u.n != c.runs[r - 1].n) SH->reused_runs_n_changed++;
+          if (u.n != c.runs[r - 1].n && u.rnd && (u.k0 - 1) % u.n != 0 && leftover_len[r] > 0) SH->reused_runs_in_seed_region++;
         }
     }
+  SH->executions++;
+  const std::string kase = case_str(c, std::vector<int>(SH->cls, SH->cls + std::min(SH->consumed, 64)));
+  // every later run against a freshly built object with the same settings and the same rand() answers
+  for (size_t r = 1; r < R && !bad; ++r)
+    {
+      const Run& u = c.runs[r];
+      const std::string kt = ";" + run_key(c, r);
+      std::vector<int> f; int fc = 0; bool fthrew = false; std::string fwhat;
+      snprintf(SH->current_key, sizeof SH->current_key, "part=b;fresh_object_for_comparison=1;%s", run_key(c, r).c_str());
+      fresh_run(ctx, u, answers[r], f, fc, fthrew, fwhat);
+      SH->compared_runs++;
+      auto both = [&](const std::vector<int>& fr) { return "run " + vmc::str(r + 1) + " (n=" + vmc::str(u.n) + ", start sub-iteration " + vmc::str(u.k0) + ") of the re-used object: " + vmc::join(sched[r], ' ') + " ; fresh object with the same settings and rand() answers: " + vmc::join(fr, ' '); };
+      if (fthrew) { add_violation("clause=no_error" + kt + ";fresh_object_for_comparison=1", kase, "the fresh object failed: " + fwhat.substr(0, 300)); bad = true; break; }
+      if (fc == (int)answers[r].size())
+        {
+          if (f != sched[r]) { add_violation("clause=reused_object_same_schedule_as_fresh_object" + kt, kase, both(f)); bad = true; }
+          continue;
+        }
+      // the numbers of rand() calls differ.  Allowed by the property in one situation only: a randomised run that starts in the middle of an
+      // iteration may use a LEFT-OVER permutation of 0..n-1 for the partial iteration instead of drawing one (the fresh object has to draw).
+      bool leftover_valid = u.rnd && (u.k0 - 1) % u.n != 0 && leftover_len[r] == u.n && fc == (int)answers[r].size() + u.n;
+      if (leftover_valid)
+        {
+          std::vector<int> seen(u.n, 0);
+          for (int s : leftover[r]) if (s < 0 || s >= u.n || seen[s]++) leftover_valid = false;
+        }
+      if (!leftover_valid)
+        {
+          add_violation("clause=reused_object_same_schedule_as_fresh_object" + kt, kase,
+                        "the re-used object made " + vmc::str(answers[r].size()) + " rand() calls, the fresh object " + vmc::str(fc) + " (permutation left over before the run: length "
+                            + vmc::str(leftover_len[r]) + ": " + vmc::join(leftover[r], ' ') + "); " + both(f));
+          bad = true; break;
+        }
+      SH->kept_leftover_runs++;
+      // fresh object: an arbitrary first draw (identity), then the answers of the re-used object; equal from the first full iteration on
+      std::vector<int> ans2(u.n, 0); ans2.insert(ans2.end(), answers[r].begin(), answers[r].end());
+      std::vector<int> f2; int fc2 = 0;
+      fresh_run(ctx, u, ans2, f2, fc2, fthrew, fwhat);
+      const size_t off = (size_t)(((u.k0 - 1 + u.n - 1) / u.n) * u.n + 1 - u.k0);
+      bool same = !fthrew && fc2 == (int)ans2.size() && f2.size() == sched[r].size();
+      for (size_t q = off; same && q < f2.size(); ++q) same = f2[q] == sched[r][q];
+      if (!same) { add_violation("clause=reused_object_same_schedule_as_fresh_object" + kt + ";kept_leftover_permutation=1", kase, both(f2)); bad = true; }
+    }
+  if (!bad)
+    { // vacuity guard: distinct (schedules of all runs) of this configuration
+      unsigned long long code = 1469598103934665603ULL;
+      for (size_t r = 0; r < R; ++r) { for (int s : sched[r]) code = (code ^ (unsigned long long)(s + 1)) * 1099511628211ULL; code = (code ^ 255ULL) * 1099511628211ULL; }
+      bool known = false;
+      for (int q = 0; q < SH->n_orders; ++q) if (SH->orders[q] == code) { known = true; break; }
+      if (!known && SH->n_orders < 1024) SH->orders[SH->n_orders++] = code;
+    }
+  (void)runs_done;
 }
 
 // advance SH->seq to the next choice sequence in DFS order, given how many choice points the last execution consumed.
@@ -255,13 +464,13 @@ static void run_tree(vmc::Ctx& ctx, const Case& c)
 {
   for (;;)
     {
-      execute(ctx, c);
+      if (c.runs.empty()) execute(ctx, c); else execute_history(ctx, c);
       if (!next_sequence()) break;
     }
   SH->done = 1;
 }
 
-static int g_crashes_seen = 0;
+static int g_crashes_seen = 0, g_reuse_samples = 0;
 static void explore(vmc::Ctx& ctx, const Case& c, const std::string& poltag)
 {
   memset(SH, 0, sizeof *SH);
@@ -302,7 +511,7 @@ static void explore(vmc::Ctx& ctx, const Case& c, const std::string& poltag)
       }
       const std::string how = WIFSIGNALED(status) ? ("signal " + vmc::str(WTERMSIG(status))) : ("exit code " + vmc::str(WEXITSTATUS(status)));
       fprintf(stderr, "child crashed (%s) in case %s\n%s\n", how.c_str(), SH->current_case, report.c_str());
-      ctx.violation("crash;" + crash_key(c), SH->current_case, "the process died (" + how + ") while executing the reconstruction loop; " + report);
+      ctx.violation("crash;" + (c.runs.empty() ? crash_key(c) : std::string(SH->current_key)), SH->current_case, "the process died (" + how + ") while executing the reconstruction loop; " + report);
       ctx.count("crashed_executions");
       ctx.current("", "");
       if (!next_sequence()) { SH->done = 1; break; } // the crashed execution is a leaf of the choice tree
@@ -317,19 +526,56 @@ static void explore(vmc::Ctx& ctx, const Case& c, const std::string& poltag)
   if (c.rnd) ctx.count("evaluations_randomised", SH->executions);
   if ((c.k0 - 1) % c.n != 0) ctx.count("evaluations_start_mid_iteration", SH->executions);
   for (int q = 0; q < SH->n_orders; ++q) ctx.nontrivial(case_str(c, {}) + poltag + ";order=" + vmc::str(SH->orders[q]));
-  ctx.maxi("distinct_orders_in_a_configuration_n" + vmc::str(c.n), SH->n_orders);
+  ctx.maxi((c.runs.empty() ? "distinct_orders_in_a_configuration_n" : "distinct_schedules_in_a_reuse_history_last_n") + vmc::str(c.n), SH->n_orders);
+  if (!c.runs.empty())
+    {
+      ctx.count("evaluations_reused_object", SH->executions);
+      ctx.count("reuse_histories_" + vmc::str(c.runs.size()) + "_runs", SH->executions);
+      ctx.count("reuse_configurations");
+      ctx.count("reused_runs", SH->reused_runs);
+      ctx.count("reused_runs_num_subsets_changed", SH->reused_runs_n_changed);
+      ctx.count("reused_runs_randomised_mid_iteration_start_after_num_subsets_change_with_leftover_permutation", SH->reused_runs_in_seed_region);
+      ctx.count("reused_runs_compared_with_fresh_object", SH->compared_runs);
+      ctx.count("reused_runs_keeping_leftover_permutation_for_partial_iteration", SH->kept_leftover_runs);
+      ctx.count("fresh_object_executions_for_comparison", SH->fresh_executions);
+      ctx.count("fresh_object_rand_calls", SH->fresh_rand_calls);
+      int nmax = 0; for (auto& u : c.runs) nmax = std::max(nmax, u.n);
+      ctx.maxi("reuse_num_subsets_completed", nmax);
+      ctx.maxi("reuse_runs_per_history", (long long)c.runs.size());
+    }
   for (long long k = 0; k < std::min<long long>(SH->viol_count, 8); ++k) ctx.violation(SH->viol_key[k], SH->viol_case[k], SH->viol_msg[k]);
   if (SH->viol_count > 8) ctx.count("violating_cases", SH->viol_count - 8);
-  if (c.rnd && SH->n_orders > 1 && ctx.samples.size() < 4)
+  if (!c.runs.empty())
+    {
+      if (SH->reused_runs_in_seed_region > 0 && SH->n_orders > 1 && ctx.samples.size() < 6 && g_reuse_samples++ < 2)
+        ctx.sample("re-used object " + case_str(c, {}) + ": " + vmc::str(SH->executions) + " executions, " + vmc::str(SH->n_orders) + " distinct schedules, "
+                   + vmc::str(SH->compared_runs) + " runs compared with a fresh object", 6);
+    }
+  else if (c.rnd && SH->n_orders > 1 && ctx.samples.size() < 4)
     ctx.sample("n=" + vmc::str(c.n) + " start_subset=" + vmc::str(c.ss) + " start_subiteration=" + vmc::str(c.k0) + " randomised " + poltag + ": " + vmc::str(SH->executions) + " executions, "
                + vmc::str(SH->n_orders) + " distinct subset orders of a full iteration, " + vmc::str(SH->rand_calls) + " rand() calls");
-  ctx.maxi("num_subsets_completed", c.n);
+  if (c.runs.empty()) ctx.maxi("num_subsets_completed", c.n);
 }
 
 struct Policy { int mask, bg, perm_only, edge_budget, slice; };
 static void set_policy(const Policy& p)
 {
   g_mask = p.mask; g_bg = p.bg; g_perm_only = p.perm_only != 0; g_edge_budget = p.edge_budget; g_slice = p.slice; g_direct = false;
+  g_hist = false; g_base = 0;
+}
+static void set_history_policy() { g_hist = true; g_slice = -1; g_direct = false; g_base = 0; g_mask = 15; g_bg = 0; g_perm_only = false; }
+static Case parse_history(const std::string& h, const int minset)
+{
+  Case c; c.minset = minset;
+  for (auto& rs : vmc::split(h, '/'))
+    {
+      auto v = vmc::ints(rs, '.');
+      if (v.size() != 5) { fprintf(stderr, "bad history '%s'\n", h.c_str()); exit(2); }
+      Run u; u.n = v[0]; u.ss = v[1]; u.k0 = v[2]; u.rnd = v[3]; u.K = v[4];
+      c.runs.push_back(u);
+    }
+  c.n = c.runs.back().n; c.ss = c.runs.back().ss; c.k0 = c.runs.back().k0; c.rnd = c.runs.back().rnd;
+  return c;
 }
 static std::string policy_str(const Policy& p)
 {
@@ -344,7 +590,9 @@ int main(int argc, char** argv)
   if (SH == MAP_FAILED) { perror("mmap"); return 2; }
   memset(SH, 0, sizeof *SH);
   ctx.rule = "part b: one evaluation = one execution of the real IterativeReconstruction::reconstruct loop (OSMAPOSL + recording objective function) for one "
-             "(num_subsets, start_subset, start_subiteration, randomise, sequence of rand() answer classes); non-trivial = distinct (configuration, enumeration policy, order of the subsets within a full iteration) observed";
+             "(num_subsets, start_subset, start_subiteration, randomise, sequence of rand() answer classes); non-trivial = distinct (configuration, enumeration policy, order of the subsets within a full iteration) observed. "
+             "Re-used objects: one evaluation = one execution of a history of 2 or 3 consecutive runs of ONE reconstruction object (setters + set_up between the runs) for one sequence of rand() answer classes, "
+             "every later run also executed on a freshly built object with the same settings and rand() answers; non-trivial = distinct (history, schedules of all its runs)";
   ctx.assume("rand()/srand()/time() are defined by the harness; a rand() answer is enumerated per class of index=(int)(rand()/RAND_MAX*(n-i)) plus the rand()==RAND_MAX edge");
   ctx.assume("bounds on the rand() answers: n<=3: every class at every call. n>=4: (i) one permutation draw at a time enumerates all (n+1)! answer sequences (incl. the RAND_MAX edge at "
              "every call) while the other draws return a fixed order (identity; thorough also 'always the last remaining'); (ii) n=4: all n! permutations of all iterations combined "
@@ -355,6 +603,18 @@ int main(int argc, char** argv)
   if (ctx.replaying())
     {
       auto m = vmc::kv(ctx.replay);
+      if (m.count("hist"))
+        {
+          Case c = parse_history(m["hist"], atoi(m["min"].c_str()));
+          auto ans = vmc::ints(m["cls"]);
+          set_history_policy(); g_direct = true;
+          memset(SH, 0, sizeof *SH);
+          SH->seq_len = std::min<int>(64, ans.size());
+          for (int i = 0; i < SH->seq_len; ++i) SH->seq[i] = ans[i];
+          execute_history(ctx, c); // directly, as below
+          for (long long k = 0; k < std::min<long long>(SH->viol_count, 8); ++k) ctx.violation(SH->viol_key[k], SH->viol_case[k], SH->viol_msg[k]);
+          return ctx.finish();
+        }
       Case c; c.n = atoi(m["n"].c_str()); c.ss = atoi(m["ss"].c_str()); c.k0 = atoi(m["k0"].c_str()); c.rnd = atoi(m["rnd"].c_str());
       auto ans = vmc::ints(m["cls"]);
       g_direct = true;
@@ -367,6 +627,86 @@ int main(int argc, char** argv)
     }
   const int inf = 1 << 30;
   uint64_t unit = 0;
+  // ---------------------------------------------------------------------------------------------- re-used objects (histories of runs)
+  // non-final runs: n, randomise, start_subset, start k0, last sub-iteration K in {k0, end of the iteration of k0, one sub-iteration more (n<=3)}
+  auto nonfinal_runs = [&](const int n, const bool all_starts) {
+    std::vector<Run> v;
+    for (int rnd = 0; rnd < 2; ++rnd)
+      for (int ss : { 0, n - 1 })
+        {
+          if (ss == 0 && n > 1 && rnd) continue; // randomised: start_subset n-1 only (not read by the randomised code path)
+          for (int k0 = 1; k0 <= (all_starts ? n + 1 : std::min(2, n + 1)); ++k0)
+            {
+              const int E = ((k0 - 1) / n + 1) * n;
+              std::vector<int> Ks = { k0, E };
+              if (n <= 3) Ks.push_back(E + 1);
+              std::sort(Ks.begin(), Ks.end()); Ks.erase(std::unique(Ks.begin(), Ks.end()), Ks.end());
+              for (int K : Ks) { Run u; u.n = n; u.ss = ss; u.k0 = k0; u.rnd = rnd; u.K = K; v.push_back(u); }
+            }
+          if (n == 1) break; // 0 == n-1
+        }
+    return v;
+  };
+  // the final run after `prev`: every start 1..n+1 and the sub-iteration after the last one of `prev`; runs to the end of the 2nd full iteration after its start
+  auto final_runs = [&](const int n, const Run& prev) {
+    std::vector<Run> v;
+    for (int rnd = 0; rnd < 2; ++rnd)
+      for (int ss : { 0, n - 1 })
+        {
+          if (ss != 0 && rnd) continue; // randomised: start_subset 0 only
+          std::vector<int> starts;
+          for (int k0 = 1; k0 <= n + 1; ++k0) starts.push_back(k0);
+          if (prev.K + 1 > n + 1) starts.push_back(prev.K + 1);
+          for (int k0 : starts) { Run u; u.n = n; u.ss = ss; u.k0 = k0; u.rnd = rnd; u.K = ((k0 - 1 + n - 1) / n + 2) * n; v.push_back(u); }
+          if (n == 1) break;
+        }
+    return v;
+  };
+  auto run_history = [&](const Case& c) -> bool {
+    const uint64_t u = unit++;
+    if (!ctx.mine(u)) return true;
+    if (ctx.expired()) return false;
+    set_history_policy();
+    explore(ctx, c, "history");
+    ctx.count("work_units");
+    return true;
+  };
+  ctx.assume("re-used objects: histories of 2 runs with num_subsets 1..4 (thorough 1..5) and, thorough, of 3 runs with num_subsets 1..3; non-final runs start at sub-iteration 1 or 2 (thorough 2-run histories: 1..n+1) "
+             "and end after one sub-iteration, at the end of that iteration or (n<=3) one sub-iteration later; the last run starts at 1..n+1 or right after the previous run and ends after its 2nd full iteration; "
+             "rand(): all permutations (no RAND_MAX edge) of every draw of the non-final runs and of the first draw of the last run, identity for its later draws; "
+             "randomised runs with one start_subset value; target image re-created for every run");
+  // stage 0 (both tiers, BEFORE the single runs so that a deadline cannot cut it): 2-run histories, num_subsets 1..4, non-final runs starting at 1 or 2;
+  // stage 1 (thorough, after the single runs): the remaining 2-run histories with num_subsets 1..5 and every start 1..n+1, and the 3-run histories
+  auto histories = [&](const int stage) -> bool {
+    const int NH2 = stage ? 5 : 4;
+    for (int n1 = 1; n1 <= NH2; ++n1)
+      for (const Run& r1 : nonfinal_runs(n1, stage != 0))
+        for (int n2 = 1; n2 <= NH2; ++n2)
+          for (const Run& r2 : final_runs(n2, r1))
+            for (int minset = 0; minset < 2; ++minset)
+              {
+                if (stage && n1 <= 4 && n2 <= 4 && r1.k0 <= 2) continue; // done in stage 0
+                Case c; c.runs = { r1, r2 }; c.minset = minset; c.n = r2.n; c.ss = r2.ss; c.k0 = r2.k0; c.rnd = r2.rnd;
+                if (!run_history(c)) return false;
+              }
+    if (stage)
+      for (int n1 = 1; n1 <= 3; ++n1)
+        for (const Run& r1 : nonfinal_runs(n1, false))
+          for (int n2 = 1; n2 <= 3; ++n2)
+            for (Run r2 : nonfinal_runs(n2, false))
+              for (int cont = 0; cont < 2; ++cont)
+                {
+                  if (cont) { if (r1.K + 1 <= 2) continue; const int len = r2.K - r2.k0; r2.k0 = r1.K + 1; r2.K = r2.k0 + len; } // the middle run continues where the first one ended
+                  for (int n3 = 1; n3 <= 3; ++n3)
+                    for (const Run& r3 : final_runs(n3, r2))
+                      {
+                        Case c; c.runs = { r1, r2, r3 }; c.minset = 0; c.n = r3.n; c.ss = r3.ss; c.k0 = r3.k0; c.rnd = r3.rnd;
+                        if (!run_history(c)) return false;
+                      }
+                }
+    return true;
+  };
+  if (!histories(0)) return ctx.finish();
   for (int n = 1; n <= 6; ++n)
     for (int k0 = 1; k0 <= 2 * n + 1; ++k0)
       for (int rnd = 0; rnd < 2; ++rnd)
@@ -407,5 +747,6 @@ int main(int argc, char** argv)
                 ctx.count("work_units");
               }
           }
+  if (th && !histories(1)) return ctx.finish();
   return ctx.finish();
 }
